@@ -136,6 +136,34 @@ def prepare(verbose=True):
     return st
 
 
+def coqchk_cached(timeout=5400):
+    """thorough tier: re-check every compiled property file and everything it depends on with Coq's independent
+    checker (coqchk -o prints the axioms relied upon).  About 12 minutes; cached per state of the .vo files."""
+    vos = sorted(tree_files(COQ, (".vo",)))
+    h = hashlib.sha256()
+    for v in vos:
+        st = os.stat(v)
+        h.update(("%s %d %d\n" % (v, st.st_size, int(st.st_mtime))).encode())
+    key = h.hexdigest()
+    stamp = os.path.join(BUILD, "coqchk.json")
+    try:
+        d = json.load(open(stamp))
+        if d.get("key") == key:
+            return d
+    except Exception:
+        pass
+    mods = ["B39.Properties." + os.path.basename(f)[:-2] for f in sorted(tree_files(os.path.join(COQ, "Properties"), (".v",)))]
+    t0 = time.time()
+    with Lock():
+        rc, out = sh(["coqchk", "-silent", "-o", "-Q", ".", "B39"] + mods, cwd=COQ, timeout=timeout)
+    summ = out[out.index("CONTEXT SUMMARY"):] if "CONTEXT SUMMARY" in out else out[-1500:]
+    d = {"key": key, "rc": rc, "seconds": round(time.time() - t0, 1), "modules": mods, "summary": " ".join(summ.split()),
+         "ok": rc == 0 and "Axioms: <none>" in " ".join(summ.split())}
+    with open(stamp, "w") as f:
+        json.dump(d, f, indent=1)
+    return d
+
+
 def changed_functions():
     """names of root-package functions whose normalised source differs from the pinned fingerprints"""
     try:
